@@ -93,7 +93,7 @@ def neg(leaf):
 
 
 def T(*rows):
-    return {(frozenset(c), leaf, tuple(ef)) for c, leaf, ef in rows}
+    return dtree.Table((frozenset(c), leaf, tuple(ef)) for c, leaf, ef in rows)
 
 
 def isnone_impls(F):
@@ -166,7 +166,7 @@ def check_isnone(run, F):
                    ms['unwrap'].loc(), 'table %s' % dtree.show(t))
         if 'map' in ms:
             leaf = one_leaf(tbl(ms['map']))
-            want = ('self.map(|v| IsNone::from_inner(f(v))).unwrap_or_else(|| NULL)' if opt
+            want = ('self.map(|a0| IsNone::from_inner(f(a0))).unwrap_or_else(|| NULL)' if opt
                     else 'IsNone::from_inner(f(self))')
             run.ob('NUL.coherent', ms['map'], key + 'map', leaf == want, ms['map'].loc(),
                    'map = %s' % leaf)
@@ -178,8 +178,8 @@ def check_defaults(run, F):
         'from_opt': 'opt.map_or_else(NULL, IsNone::from_inner)',
         'unwrap': 'self',                      # to_opt().unwrap() with coercions erased
         'not_none': 'VALID(self)',
-        'map': 'self.map(|v| IsNone::from_inner(f(v))).unwrap_or_else(|| NULL)',
-        'vabs': 'self.map(|v| v.abs())',
+        'map': 'self.map(|a0| IsNone::from_inner(f(a0))).unwrap_or_else(|| NULL)',
+        'vabs': 'self.map(|a0| a0.abs())',
     }
     n = 0
     for name, w in want.items():
@@ -190,44 +190,29 @@ def check_defaults(run, F):
     return n
 
 
-SORT_CMP = T(
-    (['(self, other) is (v1::Some(va), v1::Some(vb))'],
-     'va.partial_cmp(vb).unwrap_or_else(|| if !VALID(va) { Ordering::Greater } else { Ordering::Less })', []),
-    (['(self, other) is (v1::None, v1::None)'], 'Ordering::Equal', []),
-    (['(self, other) is (v1::None, _)'], 'Ordering::Greater', []),
-    (['(self, other) is (_, v1::None)'], 'Ordering::Less', []))
-SORT_CMP_REV = T(
-    (['(self, other) is (v1::Some(va), v1::Some(vb))'],
-     'va.partial_cmp(vb).unwrap_or_else(|| if !VALID(va) { Ordering::Less } else { Ordering::Greater }).reverse()', []),
-    (['(self, other) is (v1::None, v1::None)'], 'Ordering::Equal', []),
-    (['(self, other) is (v1::None, _)'], 'Ordering::Greater', []),
-    (['(self, other) is (_, v1::None)'], 'Ordering::Less', []))
+def _sort_table(fallback):
+    return T((['VALID(self)', 'VALID(other)'], 'self.partial_cmp(other).unwrap_or_else(|| %s)' % fallback, []),
+             (['!VALID(self)', '!VALID(other)'], 'Ordering::Equal', []),
+             (['!VALID(self)', 'VALID(other)'], 'Ordering::Greater', []),
+             (['VALID(self)', '!VALID(other)'], 'Ordering::Less', []))
 
 
-def _closure_if_canon(e, env):
-    return dtree.canon(e, env)
+# the fallback runs when partial_cmp fails (a NaN payload): the left NaN sorts last
+SORT_CMP = _sort_table('if VALID(self) { Ordering::Less } else { Ordering::Greater }')
+SORT_CMP_REV = T(*[(cs, l + ('.reverse()' if 'partial_cmp' in l else ''), ef) for cs, l, ef in
+                   _sort_table('if VALID(self) { Ordering::Greater } else { Ordering::Less }')])
 
 
 def check_comparators(run, F):
     n = 0
     for name, want in (('sort_cmp', SORT_CMP), ('sort_cmp_rev', SORT_CMP_REV)):
         fn = F.one('isnone::IsNone::' + name)
-        t = set()
-        for cs, leaf, ef in tbl(fn):
-            # render the fallback closure's `if` canonically
-            t.add((cs, re.sub(r'\s+', ' ', leaf), ef))
-        t2 = {(cs, leaf.replace('if !VALID(va) { Ordering::Greater } else { Ordering::Less }',
-                                'if !VALID(va) { Ordering::Greater } else { Ordering::Less }'), ef)
-              for cs, leaf, ef in t}
+        t = tbl(fn)
         n += 1
-        ok = t2 == want
-        # arm order matters for overlapping patterns: (None, None) before (None, _) before (_, None)
-        m = [x for x in walk(fn.hir) if x.get('k') == 'Match']
-        order = [dtree.pat_src(a['pat']) for a in m[0]['arms']] if m else []
-        ok_order = order == ['(v1::Some(va), v1::Some(vb))', '(v1::None, v1::None)', '(v1::None, _)',
-                             '(_, v1::None)']
-        run.ob('CMP.table', fn, 'IsNone::%s decision table' % name, ok and ok_order, fn.loc(),
-               'arms in order %s; table %s' % (order, dtree.show(t2)))
+        # the match on (self.to_opt(), other.to_opt()) is expanded by validity assignment with
+        # first-match semantics, so the table does not depend on the order of disjoint arms
+        run.ob('CMP.table', fn, 'IsNone::%s decision table' % name, t == want, fn.loc(),
+               'table %s' % dtree.show(t))
     # overrides (never-null types): partial_cmp().unwrap()
     for fn in F.fns:
         if fn.kind == 'AssocFn' and fn.name in ('sort_cmp', 'sort_cmp_rev') and fn.impl_trait and \
